@@ -758,6 +758,9 @@ def main(tier):
     # (rule O of C08, c08_order.py: transitive read / write sets of the setters called on one local object)
     import c08_order
     c08_order.rule_O(prog, chk, 6, select=lambda f: "src/Covariances/" in f.file and f.short.startswith("create"), rule="C03o")
+    # C03p: the admissible domain of the third parameter is enforced: a bound that may be undefined is compared under `!FFFF(bound)`
+    import idioms
+    idioms.defined_bound_rule(prog, chk, "C03p", ("src/Covariances/",), 1)
     chk.assumptions.append("published definitions: " + "; ".join("%s = %s" % (k, v["ref"]) for k, v in sorted(PUBLISHED.items())))
     chk.assumptions.append("bounds inf Lambda_d of isotropic correlations in R^d (Matern 1960 / Schoenberg): d=1 -1, d=2 -0.4028, d=3 -0.2173, all d: 0")
     return chk.finish()
